@@ -67,6 +67,13 @@ struct Result
 	uint64_t api_calls = 0 ;
 	int64_t clock_span = 0 ;
 	std::vector<std::string> audit ;
+	std::vector<J> obs ;								// observations of metadata / queries (task, op, kind, value)
+	std::vector<SimOS::IoRec> io_log ;
+	bool have_fault_snapshot = false ;
+	std::map<std::string, std::vector<uint8_t>> fault_snapshot ;
+	std::map<std::string, int64_t> dataoffsets ;
+	bool budget_hit = false ;
+	std::map<int, std::vector<uint64_t>> kept ;		// per task: items delivered by reads flagged "keep"
 	J notes ;											// free-form per-profile facts (e.g. crash images)
 	bool has (const std::string &clause) const { for (auto &v : viols) if (v.clause == clause) return true ; return false ; }
 } ;
@@ -75,6 +82,7 @@ struct ExecOpts
 {	bool keep_stores = true ;
 	bool strict = true ;			// fault-free discipline: all model clauses on
 	bool io_trace = true ;
+	bool record_io = false ;
 } ;
 
 Result execute (const J &plan, const ExecOpts &opts = ExecOpts ()) ;
